@@ -345,6 +345,31 @@ fn text_route(st: &mut Stats, t: &Tt, n: u32) {
     for text in texts {
         text_route_one(st, t, n, &text, &ordering);
     }
+    // the same diagram under OTHER NAMES for the same ids (identity of a symbol is its id): equal
+    // diagrams, equal hashes, and one copy of every node when both live in one environment
+    let renamed_text = dnf.replace('x', "other_name_");
+    let renamed: Vec<NamedSymbol> = ordering.iter().map(|s| NamedSymbol { name: Rc::new(s.name.replace('x', "other_name_")), id: s.id }).collect();
+    util::budget(50_000_000, 200);
+    let r = guarded(|| {
+        let env = Rc::new(BDDEnv::<NamedSymbol>::new());
+        let a = ParsedFormula::new_with_env(Rc::clone(&env), &mut BufReader::new(dnf.as_bytes()), Some(ordering.clone()))?.eval();
+        let size_after_first = env.size();
+        let b = ParsedFormula::new_with_env(Rc::clone(&env), &mut BufReader::new(renamed_text.as_bytes()), Some(renamed.clone()))?.eval();
+        Ok::<_, std::io::Error>((a.as_ref() == b.as_ref(), a.get_hash() == b.get_hash(), Rc::ptr_eq(&a, &b), size_after_first, env.size()))
+    });
+    st.evals += 1;
+    st.bump("route_renamed-symbols");
+    let case = json!({"table": t.hex(), "route": "formula-text", "text": dnf});
+    match r {
+        Ok(Ok((eq, same_hash, same_node, s1, s2))) => {
+            if !eq || !same_hash {
+                st.violate("c02.canonical", "C02:renamed-symbols:equal-diagrams-differ".into(), format!("`{}` and the same text with other names for the same ids: equal = {}, hashes equal = {}", dnf, eq, same_hash), case);
+            } else if !same_node || s1 != s2 {
+                st.violate("c02.canonical", "C02:renamed-symbols:second-copy-in-one-environment".into(), format!("`{}` and the same text with other names for the same ids in ONE environment: same node = {}, table size {} -> {}", dnf, same_node, s1, s2), case);
+            }
+        }
+        Ok(Err(_)) | Err(_) => st.bump("renamed_route_failed(judged by the formula-text route)"),
+    }
 }
 
 fn text_route_one(st: &mut Stats, t: &Tt, n: u32, text: &str, ordering: &[NamedSymbol]) {
